@@ -339,3 +339,38 @@ Lemma literal_clash_schedule_dependent :
   observe (run_tasks temp_path clash_tasks [0; 1; 1; 0; 0] world0) universe0 <>
   observe (run_tasks temp_path clash_tasks [] world0) universe0.
 Proof. vm_compute. discriminate. Qed.
+
+(* ---- crash states of an interleaved run decompose per task ---- *)
+Lemma proj_firstn_prefix i k l : proj i (firstn k l) = firstn (length (proj i (firstn k l))) (proj i l).
+Proof.
+  rewrite <- (firstn_skipn k l) at 3. rewrite proj_app. rewrite firstn_app, Nat.sub_diag, firstn_all. cbn. rewrite app_nil_r. reflexivity.
+Qed.
+
+Lemma sub_interleaving_owned ps l l' s i q :
+  disjoint_feet ps -> is_interleaving l ps -> incl l' l -> In q (foot (nth i ps [])) -> texec l' s q = run_ops (proj i l') s q.
+Proof.
+  intros Hd Hl Hs Hq.
+  apply (exec_proj (fun r => In r (foot (nth i ps []))) i l' s s); [| |intros r _; reflexivity|exact Hq].
+  - intros x Hx E r Hr. apply (in_foot (snd x)); [|exact Hr]. rewrite <- (Hl i), <- E. apply in_proj. apply Hs. exact Hx.
+  - intros x Hx E r Hr Hr'. apply (Hd (fst x) i r E); [|exact Hr']. apply (in_foot (snd x)); [|exact Hr].
+    rewrite <- (Hl (fst x)). apply in_proj. apply Hs. exact Hx.
+Qed.
+
+Lemma firstn_incl (A : Type) k (l : list A) : incl (firstn k l) l.
+Proof. intros x Hx. rewrite <- (firstn_skipn k l). apply in_or_app. left. exact Hx. Qed.
+
+(* the process dies after k operations of an arbitrary interleaving: every path owned by task i is in the state that
+   task i's own program reaches after some prefix of it (m = 0: untouched; m = all: finished), independently of what
+   the other tasks did; every path owned by no task is untouched *)
+Theorem crash_state_decomposes ps l s k :
+  disjoint_feet ps -> is_interleaving l ps ->
+  (forall i q, In q (foot (nth i ps [])) -> exists m, texec (firstn k l) s q = run_ops (firstn m (nth i ps [])) s q) /\
+  (forall q, (forall i, ~ In q (foot (nth i ps []))) -> texec (firstn k l) s q = s q).
+Proof.
+  intros Hd Hl. split.
+  - intros i q Hq. remember (length (proj i (firstn k l))) as m eqn:Em. exists m.
+    rewrite (sub_interleaving_owned ps l (firstn k l) s i q Hd Hl (firstn_incl _ k l) Hq).
+    pose proof (proj_firstn_prefix i k l) as E. rewrite <- Em in E. rewrite E, (Hl i). reflexivity.
+  - intros q Hn. apply exec_untouched. intros x Hx Hq. apply (Hn (fst x)). apply (in_foot (snd x)); [|exact Hq].
+    rewrite <- (Hl (fst x)). apply in_proj. apply (firstn_incl _ k l). exact Hx.
+Qed.
